@@ -206,7 +206,7 @@ def is_stager_x86(uri: str) -> bool:
 
 def is_stager_x64(uri: str) -> bool:
     """Return ``True`` if URI is a x64 stager URI, otherwise ``False``"""
-    return bool(checksum8(uri) == 93 and re.match("^/[A-Za-z0-9]{4}$", uri))
+    return bool(checksum8(uri) == 93 and re.fullmatch("/[A-Za-z0-9]{4}", uri))
 
 
 def random_stager_uri(*, x64: bool = False, length: int = 4) -> str:
